@@ -33,6 +33,19 @@ C01_KINDS = ("stream-",)
 COMMON_KINDS = ("crash", "sanitizer", "tsan")
 
 
+# a scenario usually violates several clauses at once; report the one closest to the cause first
+PRIORITY = ["name-dup", "round-robin", "pool-size", "affinity", "down-without-up", "double-up", "double-down", "up-after-down",
+            "msg-before-up", "msg-after-down", "leak-after-down", "bad-log", "stream-", "write-complete-count", "fatal-log",
+            "no-up", "never-served", "no-down", "leak", "fd-leak", "sanitizer", "tsan", "crash"]
+
+
+def _prio(kind):
+    for i, p in enumerate(PRIORITY):
+        if kind == p or kind.startswith(p):
+            return i
+    return len(PRIORITY)
+
+
 def relevant(prop_id, kind):
     if kind in COMMON_KINDS:
         return True
@@ -142,6 +155,7 @@ def run_scenario(exe, lines, timeout=150):
             fails.append((w[1], w[2] if len(w) > 2 else ""))
         elif l.startswith("INCONCLUSIVE ") or l.startswith("NOTE "):
             notes.append(l)
+    fails.sort(key=lambda f: _prio(f[0]))
     if rc == 124:
         return "INCONCLUSIVE", [], notes + ["INCONCLUSIVE the harness did not end within %ds" % timeout], out, err
     tsan = [l.strip() for l in err.split("\n") if "WARNING: ThreadSanitizer" in l]
@@ -159,7 +173,7 @@ def run_scenario(exe, lines, timeout=150):
     san = [l.strip() for l in err.split("\n") if "ERROR: AddressSanitizer" in l or "runtime error:" in l or l.startswith("SUMMARY:")]
     tail = [l for l in err.strip().split("\n") if l.strip()][-3:]
     what = "the server process died with status %d: %s" % (rc, " | ".join(san[:2] or tail)[:600])
-    return "FAIL", early + [("sanitizer" if san else "crash", what)], notes, out, err
+    return "FAIL", sorted(early, key=lambda f: _prio(f[0])) + [("sanitizer" if san else "crash", what)], notes, out, err
 
 
 def _case(lines, flavour, origin="generated"):
